@@ -16,10 +16,12 @@ import (
 	"fmt"
 	"strings"
 	"sync"
+	"sync/atomic"
 	"testing"
 	"time"
 
 	"github.com/pion/rtp"
+	"github.com/pion/srtp/v3"
 )
 
 type mdPkt struct {
@@ -35,17 +37,21 @@ type mdPkt struct {
 }
 
 type mdCase struct {
-	Prop    string   `json:"prop"`
-	Codec   string   `json:"codec"` // opus vp8 vp9 h264 av1
-	BOffers bool     `json:"b_offers,omitempty"`
-	Extra   int      `json:"extra_tracks,omitempty"` // further tracks in the bundle
-	WithDC  bool     `json:"with_dc,omitempty"`
-	Net     vfNetCfg `json:"net"`
-	NetSeed uint64   `json:"net_seed"`
-	Seq0    uint16   `json:"seq0"`
-	Ts0     uint32   `json:"ts0"`
-	Pkts    []mdPkt  `json:"pkts"`
-	Data    uint64   `json:"data_seed"`
+	Prop     string   `json:"prop"`
+	Codec    string   `json:"codec"` // opus vp8 vp9 h264 av1
+	BOffers  bool     `json:"b_offers,omitempty"`
+	Icpt     bool     `json:"interceptors,omitempty"` // both peers run pion's default interceptors (NACK + RTX retransmission, reports, TWCC)
+	BurstAt  int      `json:"burst_at,omitempty"`     // the network loses the first transmission of BurstLen consecutive packets from this index
+	BurstLen int      `json:"burst_len,omitempty"`
+	Hold     bool     `json:"hold,omitempty"`         // the reader keeps the packets ReadRTP returned instead of copying them at once
+	Extra    int      `json:"extra_tracks,omitempty"` // further tracks in the bundle
+	WithDC   bool     `json:"with_dc,omitempty"`
+	Net      vfNetCfg `json:"net"`
+	NetSeed  uint64   `json:"net_seed"`
+	Seq0     uint16   `json:"seq0"`
+	Ts0      uint32   `json:"ts0"`
+	Pkts     []mdPkt  `json:"pkts"`
+	Data     uint64   `json:"data_seed"`
 }
 
 var mdCaps = map[string]RTPCodecCapability{
@@ -61,6 +67,7 @@ func mdGenFor(prop string) func(seed uint64, idx, total int, tier string) any {
 		r := vfNewRand(seed, "md"+prop)
 		c := &mdCase{Prop: prop, Codec: vfPick(r, []string{"opus", "vp8", "vp9", "h264", "av1"}), BOffers: r.Bool(0.3), Extra: vfPick(r, []int{0, 0, 1, 2}), WithDC: r.Bool(0.4),
 			NetSeed: r.U64(), Seq0: uint16(vfPick(r, []int{0, 1, 65530, r.Intn(65536)})), Ts0: uint32(r.U64()), Data: r.U64()}
+		c.Hold = r.Bool(0.5)
 		faulty := prop == "C23" && r.Bool(0.5)
 		c.Net = vfNetCfg{BaseDelayUs: r.Range(0, 20000)}
 		if faulty {
@@ -72,6 +79,12 @@ func mdGenFor(prop string) func(seed uint64, idx, total int, tier string) any {
 			c.Codec = vfPick(r, []string{"vp8", "vp9", "h264", "av1"}) // RTX is negotiated for video
 		}
 		n := r.Range(3, 25)
+		if prop == "C23" && r.Bool(0.4) {
+			c.Icpt = true
+			if r.Bool(0.7) {
+				c.BurstAt, c.BurstLen = r.Range(1, n-1), r.Range(1, 4)
+			}
+		}
 		for i := 0; i < n; i++ {
 			p := mdPkt{PayLen: vfPick(r, []int{1, 2, 10, 100, 800, 1100, r.Range(1, 1100)}), Marker: r.Bool(0.3), TsStep: vfPick(r, []int{0, 960, 3000, 90000})}
 			if prop == "C26" && r.Bool(0.6) {
@@ -108,14 +121,37 @@ func mdRunFor(prop string) func(t *testing.T, cj []byte, res *vfResult) {
 			res.Verdict, res.Detail = "error", "unknown codec"
 			return
 		}
-		faulty := c.Net.Drop > 0 || c.Net.Dup > 0 || c.Net.JitterUs > 0
+		faulty := c.Net.Drop > 0 || c.Net.Dup > 0 || c.Net.JitterUs > 0 || c.BurstLen > 0
 		var lines []string
+		vfPeerInterceptors = c.Icpt
+		defer func() { vfPeerInterceptors = false }()
 		vfBubble(t, func(t *testing.T) {
 			t0 := time.Now()
 			nw, err := vfNewNetSim(c.NetSeed, c.Net)
 			if err != nil {
 				res.Verdict, res.Detail = "error", err.Error()
 				return
+			}
+			var burstSSRC atomic.Uint32
+			var burstMu sync.Mutex
+			burstDone := map[uint16]bool{}
+			if c.BurstLen > 0 {
+				nw.filter = func(from, to string, p []byte) []byte {
+					// SRTP leaves the RTP header in the clear: first transmissions of the chosen packets vanish
+					want := burstSSRC.Load()
+					if want == 0 || len(p) < 12 || p[0]&0xC0 != 0x80 || binary.BigEndian.Uint32(p[8:12]) != want {
+						return p
+					}
+					seq := binary.BigEndian.Uint16(p[2:4])
+					idx := int(uint16(seq - c.Seq0))
+					burstMu.Lock()
+					defer burstMu.Unlock()
+					if idx >= c.BurstAt && idx < c.BurstAt+c.BurstLen && !burstDone[seq] {
+						burstDone[seq] = true
+						return nil
+					}
+					return p
+				}
 			}
 			ha, _ := nw.addHost("10.0.1.2")
 			hb, _ := nw.addHost("10.0.2.2")
@@ -138,6 +174,7 @@ func mdRunFor(prop string) func(t *testing.T, cj []byte, res *vfResult) {
 				vfMergeNetStats(res, nw)
 			}()
 			var mu sync.Mutex
+			viaRTX := 0
 			recv := map[string][]mdRecv{} // by remote track id
 			var remoteTracks []*TrackRemote
 			b.pc.OnTrack(func(tr *TrackRemote, rc *RTPReceiver) {
@@ -146,12 +183,21 @@ func mdRunFor(prop string) func(t *testing.T, cj []byte, res *vfResult) {
 				mu.Unlock()
 				go func() {
 					for {
-						p, _, err := tr.ReadRTP()
+						p, attr, err := tr.ReadRTP()
 						if err != nil {
 							return
 						}
 						mu.Lock()
-						recv[tr.ID()] = append(recv[tr.ID()], mdRecv{p.Header.Clone(), append([]byte{}, p.Payload...)})
+						if attr != nil && attr.Get(AttributeRtxSequenceNumber) != nil {
+							viaRTX++
+						}
+						if c.Hold {
+							// the application keeps what ReadRTP returned (a jitter buffer does): it is looked at
+							// only after everything has arrived
+							recv[tr.ID()] = append(recv[tr.ID()], mdRecv{p.Header, p.Payload})
+						} else {
+							recv[tr.ID()] = append(recv[tr.ID()], mdRecv{p.Header.Clone(), append([]byte{}, p.Payload...)})
+						}
 						mu.Unlock()
 					}
 				}()
@@ -287,6 +333,16 @@ func mdRunFor(prop string) func(t *testing.T, cj []byte, res *vfResult) {
 			}
 			lines = append(lines, fmt.Sprintf("codec=%s bOffers=%v mid=%s primarySSRC announced=%v pt=%d rtxSSRC=%d rtxPT=%d faulty=%v", c.Codec, c.BOffers, secMid, announced[fmt.Sprint(primarySSRC)], wantPT, rtxSSRC, rtxPT, faulty))
 			// ---- send
+			if c.Icpt && sender != nil {
+				// an application reads the sender's RTCP; that is what hands NACKs to the responder
+				go func() {
+					for {
+						if _, _, err := sender.ReadRTCP(); err != nil {
+							return
+						}
+					}
+				}()
+			}
 			type sentPkt struct {
 				seq  uint16
 				ts   uint32
@@ -304,8 +360,11 @@ func mdRunFor(prop string) func(t *testing.T, cj []byte, res *vfResult) {
 			seq, ts := c.Seq0, c.Ts0
 			rtxSeq := uint16(rr.Intn(65536))
 			canRTX := rtxSSRC != 0 && rtxPT >= 0
+			burstSSRC.Store(primarySSRC)
+			var rawCtx *srtp.Context
+			var rawErr error
 			pkts := append([]mdPkt{}, c.Pkts...)
-			if prop == "C26" {
+			if prop == "C26" || c.Icpt {
 				// TrackRemote.Read looks for unwrapped retransmissions when it is called and then blocks on
 				// the primary stream: a trailing original lets the reader come back and drain them
 				pkts = append(pkts, mdPkt{PayLen: 12, TsStep: 960}, mdPkt{PayLen: 13, TsStep: 960})
@@ -342,7 +401,12 @@ func mdRunFor(prop string) func(t *testing.T, cj []byte, res *vfResult) {
 						// well-formed RFC 8285 elements for the one-/two-byte profiles (one element per word),
 						// opaque bytes for any other profile
 						sp.ext = rr.Bytes(4 * (p.ExtLen % 16))
+						sparse := p.ExtLen%2 == 1 // only the first word holds an element, the rest is RFC 8285 padding (zero bytes)
 						for w := 0; w+4 <= len(sp.ext); w += 4 {
+							if sparse && w > 0 && sp.extP != 0xABCD {
+								sp.ext[w], sp.ext[w+1], sp.ext[w+2], sp.ext[w+3] = 0, 0, 0, 0
+								continue
+							}
 							id := byte(1 + (w/4)%14)
 							switch sp.extP {
 							case 0xBEDE:
@@ -393,10 +457,25 @@ func mdRunFor(prop string) func(t *testing.T, cj []byte, res *vfResult) {
 						raw.Write(make([]byte, sp.pad-1))
 						raw.WriteByte(byte(sp.pad))
 					}
-					if _, err := sender.trackEncodings[0].srtpStream.Write(raw.Bytes()); err != nil {
+					// pion's own SRTP session re-encodes the RTP header minimally before encrypting, which a
+					// remote sender does not do: the packet is protected with a separate SRTP context keyed
+					// like the sender's and put on the wire byte for byte as built above
+					if rawCtx == nil {
+						rawCtx, rawErr = mdRawSRTPContext(a.pc.dtlsTransport)
+					}
+					if rawErr != nil {
+						res.Verdict, res.Detail = "error", "raw srtp context: "+rawErr.Error()
+						return
+					}
+					enc, err := rawCtx.EncryptRTP(nil, raw.Bytes(), nil)
+					if err == nil {
+						_, err = a.pc.dtlsTransport.srtpEndpoint.Write(enc)
+					}
+					if err != nil {
 						lines = append(lines, "rtx write error: "+err.Error())
 					}
 					res.stat("rtx_packets_sent", 1)
+					lines = append(lines, fmt.Sprintf("rtx for seq %d: csrc=%d ext=%#x/%d bytes pad=%d payload=%d", sp.seq, len(sp.csrc), sp.extP, len(sp.ext), sp.pad, len(sp.pay)))
 				} else {
 					pk := &rtp.Packet{Header: rtp.Header{Version: 2, Marker: sp.mark, SequenceNumber: sp.seq, Timestamp: sp.ts, SSRC: 12345, PayloadType: 96}, Payload: sp.pay}
 					if err := track.WriteRTP(pk); err != nil {
@@ -411,6 +490,10 @@ func mdRunFor(prop string) func(t *testing.T, cj []byte, res *vfResult) {
 				}
 				if i%4 == 3 || i >= len(c.Pkts)-1 {
 					vfSettle(time.Duration(1+i) * time.Millisecond)
+				}
+				if c.Icpt && i >= len(c.Pkts)-1 {
+					// time for the receiver's NACK and the sender's retransmissions before the trailing originals
+					vfSettle(400 * time.Millisecond)
 				}
 			}
 			expect := 0
@@ -435,6 +518,15 @@ func mdRunFor(prop string) func(t *testing.T, cj []byte, res *vfResult) {
 			}
 			mu.Unlock()
 			lines = append(lines, fmt.Sprintf("sent=%d (expected to arrive %d) received=%d", len(sent), expect, len(got)))
+			mu.Lock()
+			res.stat("packets_delivered_from_the_rtx_stream", int64(viaRTX))
+			mu.Unlock()
+			burstMu.Lock()
+			res.stat("burst_first_transmissions_dropped", int64(len(burstDone)))
+			burstMu.Unlock()
+			if c.Icpt {
+				res.stat("runs_with_default_interceptors", 1)
+			}
 			if rt == nil {
 				if !faulty && expect > 0 {
 					res.violate("remote-track-never-appeared", fmt.Sprintf("%d packets written on a fault-free network, OnTrack never fired for track trk-main", expect))
@@ -569,20 +661,40 @@ func mdFirstDiff(a, b []byte) int {
 func init() {
 	vfRegister(&vfProp{
 		ID: "C23", Level: "exploration", ReplayClass: "decision-exact",
-		Rule: "case = codec in {Opus, VP8, VP9, H264, AV1}, either side offering, 0-2 extra tracks and an optional data channel in the bundle, 3-25 RTP packets with random payloads/markers/timestamp steps/start sequence (incl. wrap) written to a TrackLocalStaticRTP of a real connected pair; half of the runs on a fault-free constant-delay network (everything must arrive, in order), half with jitter, loss and duplication (received must be a subset, each intact); non-trivial = the pair connected, distinct = configuration + hash of the outcome",
-		Real: []string{"both PeerConnections with real ICE, DTLS, SRTP, default interceptors (NACK/RTX, reports, TWCC), RTPSender/RTPReceiver/TrackRemote", "vnet"},
-		Stub: []string{"network: vnet + seeded per-datagram fate", "signaling: in-process"},
+		Rule:        "case = codec in {Opus, VP8, VP9, H264, AV1}, either side offering, 0-2 extra tracks and an optional data channel in the bundle, 3-25 RTP packets with random payloads/markers/timestamp steps/start sequence (incl. wrap) written to a TrackLocalStaticRTP of a real connected pair; half of the runs on a fault-free constant-delay network (everything must arrive, in order), half with jitter, loss and duplication (received must be a subset, each intact); non-trivial = the pair connected, distinct = configuration + hash of the outcome",
+		Real:        []string{"both PeerConnections with real ICE, DTLS, SRTP, default interceptors (NACK/RTX, reports, TWCC), RTPSender/RTPReceiver/TrackRemote", "vnet"},
+		Stub:        []string{"network: vnet + seeded per-datagram fate", "signaling: in-process"},
 		Assumptions: []string{"header extensions added by interceptors are not compared; SSRC, payload type, sequence number, timestamp, marker and payload are"},
-		Shrink: []string{"pkts"},
-		Gen:    mdGenFor("C23"), Run: mdRunFor("C23"),
+		Shrink:      []string{"pkts"},
+		Gen:         mdGenFor("C23"), Run: mdRunFor("C23"),
 	})
 	vfRegister(&vfProp{
 		ID: "C26", Level: "exploration", ReplayClass: "decision-exact",
-		Rule: "case = a connected pair with a video track and RTX negotiated; for ~60% of 3-25 packets the simulated sender suppresses the original and writes only its RFC 4588 retransmission (RTX SSRC and payload type, own sequence numbers, OSN prefix) through the sender's SRTP stream, with 0-15 CSRCs, one-byte/two-byte/other extension profiles of 0-7 words, 0-255 padding bytes, payload 0-1000 bytes, and RTX packets too short to hold an OSN; fault-free network; non-trivial = the pair connected, distinct = configuration + outcome hash",
-		Real: []string{"both PeerConnections with real ICE, DTLS, SRTP, interceptors; RTPReceiver repair-stream reader and TrackRemote.Read unwrapping", "vnet"},
-		Stub: []string{"the sender-side loss-and-retransmit element is the harness writing crafted RTX packets through the real RTPSender's SRTP write stream"},
+		Rule:        "case = a connected pair with a video track and RTX negotiated; for ~60% of 3-25 packets the simulated sender suppresses the original and writes only its RFC 4588 retransmission (RTX SSRC and payload type, own sequence numbers, OSN prefix) through the sender's SRTP stream, with 0-15 CSRCs, one-byte/two-byte/other extension profiles of 0-7 words, 0-255 padding bytes, payload 0-1000 bytes, and RTX packets too short to hold an OSN; fault-free network; non-trivial = the pair connected, distinct = configuration + outcome hash",
+		Real:        []string{"both PeerConnections with real ICE, DTLS, SRTP, interceptors; RTPReceiver repair-stream reader and TrackRemote.Read unwrapping", "vnet"},
+		Stub:        []string{"the sender-side loss-and-retransmit element is the harness writing crafted RTX packets through the real RTPSender's SRTP write stream"},
 		Assumptions: []string{"order between packets of the primary stream and unwrapped retransmissions is not compared (two streams)", "the repair channel holds 50 packets; runs send at most 25"},
-		Shrink: []string{"pkts"},
-		Gen:    mdGenFor("C26"), Run: mdRunFor("C26"),
+		Shrink:      []string{"pkts"},
+		Gen:         mdGenFor("C26"), Run: mdRunFor("C26"),
 	})
+}
+
+// mdRawSRTPContext derives, from the established DTLS connection, an SRTP context with the
+// transport's local keys (what DTLSTransport.startSRTP does for its own session).
+func mdRawSRTPContext(t *DTLSTransport) (*srtp.Context, error) {
+	t.lock.RLock()
+	conn, profile := t.conn, t.srtpProtectionProfile
+	t.lock.RUnlock()
+	if conn == nil {
+		return nil, fmt.Errorf("no DTLS connection")
+	}
+	st, ok := conn.ConnectionState()
+	if !ok {
+		return nil, fmt.Errorf("no DTLS connection state")
+	}
+	cfg := &srtp.Config{Profile: profile}
+	if err := cfg.ExtractSessionKeysFromDTLS(&st, t.role() == DTLSRoleClient); err != nil {
+		return nil, err
+	}
+	return srtp.CreateContext(cfg.Keys.LocalMasterKey, cfg.Keys.LocalMasterSalt, cfg.Profile)
 }
